@@ -13,7 +13,7 @@ A case is an xylab case (see vlib/xylab.py) plus
     cut_pref   'any' | 'x-gap' | 'y-nan'   'x-gap' restricts the eligible dates to those at which the input feature table
                          has no row or a NaN cell (fill patterns at the cut), 'y-nan' to those at which a price is
                          missing, when there are any
-    te_mode    'at-t' (transformer_end = the date of t) | 'day-before' | 'te-min' (earliest valid) | 'between'
+    te_mode    'at-t' (transformer_end = t, time of day included) | 'day-before' | 'te-min' (earliest valid) | 'between'
     te_q       0..999    position of transformer_end between te_min and the date of t for te_mode 'between'
     np_seed    numpy seed set right before every reset (the start of an episode of `episode_length` steps is sampled)
     perturb    {'seed': int, 'rows': 'all' | 'next' (only rows dated in (t, next step date]),
@@ -360,7 +360,8 @@ def run_xy(case):
     ncalls = jc + 1
     off_t = math.floor(offset_of(case, t))
     if case["te_mode"] == "at-t":
-        te = off_t
+        te = offset_of(case, t)           # t itself, time of day included (a multiple of 1/4 day for intraday tables)
+        te = int(te) if te == int(te) else te
     elif case["te_mode"] == "day-before":
         te = max(tmin, off_t - 1)
     elif case["te_mode"] == "te-min":
@@ -383,7 +384,7 @@ def run_xy(case):
     env2 = xylab.build_env(c2, T2)
     tr1 = twin_run(env1, case, actions, ncalls)
     tr2 = twin_run(env2, case, actions, ncalls)
-    where = "cut t=%s (call %d of %d), transformer_end=%s, rows > t rewritten" % (t, jc, len(dates) - 1, xylab.day(case, te).date())
+    where = "cut t=%s (call %d of %d), transformer_end=%s, rows > t rewritten" % (t, jc, len(dates) - 1, xylab.day(case, te))
     traded = False
     for j in range(max(len(tr1), len(tr2))):
         if j >= len(tr1) or j >= len(tr2):
@@ -454,3 +455,27 @@ def run_xy(case):
 def _short(v):
     s = repr(v)
     return s if len(s) <= 160 else s[:157] + "..."
+
+
+# ------------------------------------------------------------------------------------------------
+# Sensitivity record (scratch copy of /repo/tradingenv, one mutant at a time,
+# VERIF_PKG_ROOT=<scratch> ./check C02XY_TMP --tier quick --no-evidence with quick=640; all exit 1 + VIOLATION;
+# the first eight with VERIF_SEED=1,2,3, the others with seed 1; number = evaluations until the failure):
+#   env.py  self.transformer.fit(X)                                         caught (51-65): env.X.loc[:t] / observation
+#   env.py  self.transformer.fit(X.loc[:end])                               caught (51-65)
+#   env.py  X.bfill instead of X.ffill                                      caught (74-117): needs a missing feature at or
+#           before t whose next value is dated > t (sparse feature index, NaN cell at t; cut_pref 'x-gap')
+#   env.py  reward scale on all of Y                                        caught (8): reward scale, rewards
+#   env.py  reward scale on Y.loc[:end] (own)                               caught (8)
+#   env.py  EventNewObservation stamped with the previous row's time        caught (8): observation
+#   transmitter.py  add_prices uses the next row's price (shift(-1))        caught (8): quotes, trades, NLV
+#   env.py  rate taken from the next row                                    caught (24-56): rate quote in the exchange at t (the
+#           interest paid with that rate only shows in the step after t; seen through trades only with sparse rates)
+#   env.py  z-score recomputed with the statistics of the whole table       caught (53-83)
+#   env.py  fit on X.loc[:transformer_end + 1 day] (own)                    caught (152): needs transformer_end = t / day before
+#   env.py  reward scale on Y.loc[:transformer_end + 1 day] (own)           caught (8)
+#   env.py  linear interpolation of inner gaps before the forward fill (own)  caught (89)
+#   env.py  leading gaps filled with the column mean instead of 0 (own)     caught (160)
+#   env.py  table divided by max|X|/clip instead of clipped (own)           caught (26)
+#   transmitter.py  a missing price takes the next row's price (bfill(limit=1)) (own)   caught (222): cut_pref 'y-nan'
+# Shrinking a failure takes 10-240 s (three environments are built per execution, ~0.13 s).
